@@ -54,9 +54,19 @@ type vView struct {
 	hasVal    bool
 }
 
+// ready: Subscription.Next would return without waiting (it skips items that carry no events)
 func (e *vView) ready() bool {
-	_, ok := e.sub.currentItem.NextNoBlock()
-	return ok
+	it := e.sub.currentItem
+	for {
+		nx, ok := it.NextNoBlock()
+		if !ok {
+			return false
+		}
+		if nx.Err != nil || len(nx.Events) > 0 {
+			return true
+		}
+		it = nx
+	}
 }
 
 func VerifC11_Schedules() {
@@ -78,8 +88,29 @@ func VerifC11_Schedules() {
 	var views []*vView
 	nextIdx := uint64(10)
 	commits := 0
+	// one delivery to subscriber w, with the per-delivery assertions
+	deliver := func(w *vView) {
+		ev, err := w.sub.Next(context.Background())
+		verifrt.Assert("C11.next.no-error", err == nil)
+		if ev.IsNewSnapshotToFollow() {
+			// the server could not resume: the client drops its view and takes the snapshot that follows
+			w.haveIndex, w.hasVal = false, false
+			return
+		}
+		if w.haveIndex {
+			verifrt.Assert("C11.delivered-index-never-decreases", ev.Index >= w.index)
+		}
+		w.haveIndex, w.index = true, ev.Index
+		if p, ok := ev.Payload.(vPayload); ok {
+			w.val, w.hasVal = p.val, true
+		}
+		if !ev.IsFramingEvent() || ev.IsEndOfSnapshot() {
+			want, exists := store.valueAt(ev.Index)
+			verifrt.Assert("C11.view-equals-store-at-delivered-index", w.hasVal == exists && (!exists || w.val == want))
+		}
+	}
 	for step := 0; step < steps; step++ {
-		switch verifrt.Choice("step", 4) {
+		switch verifrt.Choice("step", 6) {
 		case 0: // commit a write: the state changes first, its events are queued for the publisher
 			if commits >= 3 {
 				verifrt.Assume(false)
@@ -108,21 +139,37 @@ func VerifC11_Schedules() {
 			if !w.ready() {
 				verifrt.Assume(false)
 			}
-			ev, err := w.sub.Next(context.Background())
-			verifrt.Assert("C11.next.no-error", err == nil)
-			if w.haveIndex {
-				verifrt.Assert("C11.delivered-index-never-decreases", ev.Index >= w.index)
-			}
-			w.haveIndex, w.index = true, ev.Index
-			if p, ok := ev.Payload.(vPayload); ok {
-				w.val, w.hasVal = p.val, true
-			}
-			if !ev.IsFramingEvent() || ev.IsEndOfSnapshot() {
-				want, exists := store.valueAt(ev.Index)
-				verifrt.Assert("C11.view-equals-store-at-delivered-index", w.hasVal == exists && (!exists || w.val == want))
-			}
+			deliver(w)
 			verifrt.Reached("delivered")
+		case 4: // a client that saw the state as of an earlier committed index (in a connection since closed) resumes there
+			if len(views) >= 2 || len(store.versions) == 0 {
+				verifrt.Assume(false)
+			}
+			seen := store.versions[verifrt.Choice("resume-at", len(store.versions))]
+			sub, err := pub.Subscribe(&SubscribeRequest{Topic: topic, Subject: StringSubject("k"), Index: seen.idx})
+			verifrt.Assert("C11.subscribe.no-error", err == nil)
+			views = append(views, &vView{sub: sub, haveIndex: true, index: seen.idx, val: seen.val, hasVal: true})
+			verifrt.Reached("resumed")
+		case 5: // a subscriber goes away
+			if len(views) == 0 {
+				verifrt.Assume(false)
+			}
+			k := verifrt.Choice("who", len(views))
+			views[k].sub.Unsubscribe()
+			views = append(views[:k:k], views[k+1:]...)
 		}
+	}
+	// epilogue: the publisher catches up and every remaining subscriber consumes what is there for it; no
+	// committed change may have been skipped
+	for pub.VerifDrainOne() {
+	}
+	for _, w := range views {
+		for n := 0; n < 12 && w.ready(); n++ {
+			deliver(w)
+		}
+		verifrt.Assert("C11.consumption-terminates", !w.ready())
+		cur := store.current()
+		verifrt.Assert("C11.no-committed-change-skipped", w.hasVal == (cur.idx != 0) && (!w.hasVal || w.val == cur.val))
 	}
 	verifrt.Reached("end")
 }
